@@ -470,7 +470,7 @@ def check_const_observers(ctx, fb, rule):
         except (ValueError, IndexError):
             continue
         from_shared = bool(bits & 8)
-        async_shared = f.cta[5].endswith('Shared') if len(f.cta) > 5 else False
+        async_shared = (f.cta[5] == '2' or f.cta[5].endswith('Shared')) if len(f.cta) > 5 else False
         if f.n in ('Call', 'Impl') and 'lambda' not in f.flags and from_shared:
             for c in f.own_nodes():
                 if c.get('cn') == 'yaclib::detail::ResultCore::MoveOrConst':
@@ -487,7 +487,7 @@ def check_const_observers(ctx, fb, rule):
         if 'lambda' in f.flags and f.qn.startswith('yaclib::detail::Core::Impl') and f.cfg is not None:
             # async_done: the inner result of a step that returned a SharedFuture is read as const
             parent = fb.fn.get(f.parent)
-            if parent is None or len(parent.cta) < 6 or not parent.cta[5].endswith('Shared'):
+            if parent is None or len(parent.cta) < 6 or not (parent.cta[5] == '2' or parent.cta[5].endswith('Shared')):
                 continue
             for c in f.own_nodes():
                 if c.get('cn') == 'yaclib::detail::ResultCore::MoveOrConst':
